@@ -6,6 +6,7 @@ import (
 	"sort"
 	"testing"
 
+	"github.com/yaricom/goNEAT/v4/neat"
 	"github.com/yaricom/goNEAT/v4/neat/genetics"
 	"github.com/yaricom/goNEAT/v4/neat/network"
 	"gonum.org/v1/gonum/graph"
@@ -206,6 +207,13 @@ func CheckC11(c C11Case, rec *Rec) error {
 		rec.NonTrivial(hashOf(len(c.G.Nodes), len(c.G.Genes), disabled, recurrent, selfLoops, len(c.G.Modules), enabledMods))
 	}
 
+	return checkExpression(net, c.G, rec, true)
+}
+
+// checkExpression compares a network with the genome specification it is said to express: structure (nodes, outputs,
+// sensors, links, modules, counts) and - with graphView - every query of the graph view over all ordered pairs of ids.
+func checkExpression(net *network.Network, spec GenomeSpec, rec *Rec, graphView bool) error {
+	c := struct{ G GenomeSpec }{spec}
 	// --- structure ---
 	base := net.BaseNodes()
 	if len(base) != len(c.G.Nodes) {
@@ -273,6 +281,25 @@ func CheckC11(c C11Case, rec *Rec) error {
 			viaOut = append(viaOut, linkKey{l.InNode.Id, l.OutNode.Id, l.ConnectionWeight, l.IsRecurrent})
 		}
 	}
+	// one link object per enabled gene: what a node lists as incoming is the very object its source lists as outgoing
+	inObjs, outObjs := map[*network.Link]int{}, map[*network.Link]int{}
+	for _, n := range base {
+		for _, l := range n.Incoming {
+			inObjs[l]++
+		}
+		for _, l := range n.Outgoing {
+			outObjs[l]++
+		}
+	}
+	for l, k := range inObjs {
+		if k != 1 || outObjs[l] != 1 {
+			return fmt.Errorf("link %d->%d is listed %d time(s) as an incoming and %d time(s) as an outgoing link (one link object per enabled gene, listed once at each end)",
+				l.InNode.Id, l.OutNode.Id, k, outObjs[l])
+		}
+	}
+	if len(outObjs) != len(inObjs) {
+		return fmt.Errorf("%d link objects are listed as outgoing, %d as incoming", len(outObjs), len(inObjs))
+	}
 	if !reflect.DeepEqual(linkMultiset(viaIn), wantSet) && !(len(viaIn) == 0 && len(want) == 0) {
 		return fmt.Errorf("links found through Incoming %v are not the enabled genes %v", viaIn, want)
 	}
@@ -327,6 +354,9 @@ func CheckC11(c C11Case, rec *Rec) error {
 		return fmt.Errorf("Complexity = %d, expected %d", got, want)
 	}
 
+	if !graphView {
+		return nil
+	}
 	// --- graph view against the adjacency model ---
 	type pair struct{ u, v int64 }
 	adj := map[pair][]float64{}
@@ -351,8 +381,8 @@ func CheckC11(c C11Case, rec *Rec) error {
 	if err != nil {
 		return fmt.Errorf("Nodes(): %v", err)
 	}
-	if !sameIdSet(ids, present) {
-		return fmt.Errorf("Nodes() = %v, expected the ids %v", ids, present)
+	if !sameIdSet(ids, present) || len(ids) != len(present) {
+		return fmt.Errorf("Nodes() = %v, expected each of the ids %v once", ids, present)
 	}
 	maxId := int64(0)
 	query := []int64{0, -1}
@@ -464,6 +494,53 @@ func CheckC11(c C11Case, rec *Rec) error {
 	rec.ClassN("pair queries", len(query)*len(query))
 	return nil
 }
+
+/* C11 (epochs): the networks that organisms hand out. After construction and after every turnover of a generated history each
+   organism's Phenotype() must express the organism's genome as it is now (babies were duplicated, mutated, mated, some of
+   them decoded from the wire format; an evaluator works on exactly these networks). */
+func CheckC11Epochs(sc Scenario, rec *Rec) error {
+	look := func(when string, pop *genetics.Population) error {
+		for i, o := range pop.Organisms {
+			net, err := o.Phenotype()
+			if err != nil {
+				return fmt.Errorf("%s: organism %d: Phenotype returned error %v", when, i, err)
+			}
+			spec := Snapshot(o.Genotype)
+			if err := checkExpression(net, spec, rec, i%7 == 0 && len(spec.Nodes) <= 12); err != nil {
+				return fmt.Errorf("%s: the phenotype of organism %d (genome %d) does not express its genome: %v", when, i, o.Genotype.Id, err)
+			}
+		}
+		return nil
+	}
+	prevGenes := 0
+	return runScenario(sc, epochHooks{
+		built: func(pop *genetics.Population, _ *neat.Options) error { return look("after construction", pop) },
+		after: func(e int, pop *genetics.Population) error {
+			if len(sc.Start.Modules) > 0 {
+				// a population spawned from a modular genome is looked at after construction only: the crossovers hand the
+				// modules of both parents to a child (DESIGN 5.2), what a turnover makes of modular genomes is outside the
+				// domain of every listed property
+				return nil
+			}
+			genes := 0
+			for _, o := range pop.Organisms {
+				genes += len(o.Genotype.Genes)
+			}
+			if genes > prevGenes && prevGenes > 0 {
+				rec.Class("turnover that added genes")
+				rec.NonTrivial(hashOf(e, len(pop.Organisms), genes, len(pop.Species)))
+			}
+			prevGenes = genes
+			return look(fmt.Sprintf("after epoch %d", e), pop)
+		},
+	}, rec)
+}
+
+func TestC11Epochs(t *testing.T) {
+	runProp(t, "C11", "epochs", 150, 3000, genScenario(ScenarioCfg{MaxEpochs: pick(10, 25), Parallel: 1, Structural: true, MaxPop: pick(30, 60), ModularStart: true}), CheckC11Epochs)
+}
+
+func init() { registerReplay("C11", "epochs", CheckC11Epochs) }
 
 func TestC11(t *testing.T) {
 	runProp(t, "C11", "genesis", 3000, 60000, GenC11(), CheckC11)
